@@ -78,6 +78,9 @@ def build_model(small_gov=False):
     mod = Model()
     mod.EquationSolver.TraceStep = 10
     mod.EquationSolver.ParameterSolveInitialSteadyState = True
+    # The model approaches its steady state slowly; give the search enough periods to meet the tolerance
+    # for every variable (the slightly negative government balance included).
+    mod.EquationSolver.ParameterInitialSteadyStateMaxTime = 300
     mod.EquationSolver.MaxTime = 100
     # Create first country - Canada. (This model only has one country.)
     can = Country(mod, 'CA', 'Canada')
